@@ -162,7 +162,7 @@ pub fn pick_counts(rng: &mut Rng, tier: Tier) -> (usize, usize) {
 
 pub fn addr(port: u16) -> SocketAddr { SocketAddr::new(IpAddr::V4(Ipv4Addr::new(10, 1, 2, 3)), port) }
 
-fn project(resp: &valve::Response) -> game::Response { game::Response::new_from_valve_response(resp.clone()) }
+fn project(resp: &valve::Response) -> game::Response { crate::models::valve::project_game(resp) }
 
 fn diff_game(g: &game::Response, e: &game::Response) -> Option<String> {
     macro_rules! f {
